@@ -36,6 +36,16 @@ Theorem C11_per_row_options : forall (K : Type) (dK : K) l i, 2 <= length l -> k
 Proof. exact @kw_for_list. Qed.
 Print Assumptions C11_per_row_options.
 
+(* compute_features_kwargs not given (None): every row is analysed with the empty option set *)
+Theorem C11_default_options : forall (K : Type) (dK : K) i, kw_for dK KwNone i = dK.
+Proof. exact @kw_for_none. Qed.
+Print Assumptions C11_default_options.
+
+(* a one-element list is shared as well (the implementation switches on len(kwargs) > 1) *)
+Theorem C11_singleton_list_is_shared : forall (K : Type) (dK k : K) i, kw_for dK (KwList [k]) i = k.
+Proof. exact @kw_for_singleton. Qed.
+Print Assumptions C11_singleton_list_is_shared.
+
 (* BycycleGroup.models mirror df_features and sigs position by position *)
 Theorem C11_models_mirror : forall (Sg T : Type) (dS : Sg) (dT : T) (dfs : list T) (sigs : list Sg) (i : nat),
   i < length sigs -> nth i (models2d dS dT dfs sigs) (dT, dS) = (nth i dfs dT, nth i sigs dS).
